@@ -191,10 +191,49 @@ private theorem step_setParent_aux (p4 : Word) (m : PMem) (a : AbsMap)
     simp only [MOp.absStep, okExc, ↓reduceIte, MOp.absOk]
     exact (hcore va).trans (habs va)
 
-/-- One step: from a state satisfying the invariant whose walk matches the abstract map, a valid
-call leads to such a state again, with the abstract map updated by the call's result. -/
+/-- The calls of a history (leaf flags with `PRESENT`) keep the strict form of the entry invariant:
+every non-zero entry of every table is present. (The state invariant `Inv` itself also admits pages
+mapped without `PRESENT`, see `Properties/C01Dormant.lean`; the abstract map of this file describes what
+the MMU sees, so its calls are the ones whose leaf flags contain `PRESENT`.) -/
+theorem step_strict (p4 : Word) (m : PMem) (op : MOp)
+    (hinv : Inv m p4) (hst : AllPresent m p4) (hv : op.Valid p4 m) : AllPresent (op.exec p4 m).2 p4 := by
+  cases op with
+  | map parents li huge sz frame flags pflags allocs =>
+    obtain ⟨sh, hpi, hli, hpf, hfl, hfr, hal⟩ := hv
+    have hfull := map_to_full ⟨false⟩ (⟨m, allocs, []⟩ : St) p4 parents li huge sz frame flags pflags
+      sh hinv hpi hpf (leafBits_of_leafFlags hfl) hfr hal
+    show AllPresent (mapTo ⟨false⟩ (⟨m, allocs, []⟩ : St) p4 parents li huge frame flags pflags).2.mem p4
+    cases hm : mapTo ⟨false⟩ (⟨m, allocs, []⟩ : St) p4 parents li huge frame flags pflags with
+    | mk res s' =>
+      rw [hm] at hfull
+      cases res with
+      | panic => exact hfull.elim
+      | ok r =>
+        cases r with
+        | error e => exact hfull.strict hst
+        | ok u => cases u; exact hfull.strict (present_of_leafFlags hfl) hst
+  | unmap parents li huge sz =>
+    obtain ⟨sh, hpi⟩ := hv
+    exact unmap_strict (⟨m, [], []⟩ : St) p4 parents li huge sz sh hinv hpi hst
+  | update parents li huge sz flags =>
+    obtain ⟨sh, hpi, hli, hfl⟩ := hv
+    exact update_flags_strict (⟨m, [], []⟩ : St) p4 parents li huge sz flags sh hinv hpi hfl hst
+  | setParent parents idx flags =>
+    obtain ⟨hlen, hpi, hidx, hfl⟩ := hv
+    show AllPresent (setParentFlags ⟨false⟩ (⟨m, [], []⟩ : St) p4 parents idx flags).2.mem p4
+    cases h : (setParentFlags ⟨false⟩ (⟨m, [], []⟩ : St) p4 parents idx flags).1 with
+    | error e => rw [set_parent_flags_err _ p4 parents idx flags e h]; exact hst
+    | ok u =>
+      cases u
+      exact (set_parent_flags_full (⟨m, [], []⟩ : St) p4 parents idx flags hlen hinv hpi hidx hfl h).2.2 hst
+
+/-- One step: from a state satisfying the invariant (in its strict form: every non-zero entry is
+present — what histories of calls with `PRESENT` leaf flags maintain, `step_strict`) whose walk
+matches the abstract map, a valid call leads to such a state again, with the abstract map updated by
+the call's result. -/
 theorem step_ok (p4 : Word) (m : PMem) (a : AbsMap) (op : MOp)
-    (hinv : Inv m p4) (habs : ∀ va, (walk m p4 va).map Xlat.core = a va) (hv : op.Valid p4 m) :
+    (hinv : Inv m p4) (hst : AllPresent m p4)
+    (habs : ∀ va, (walk m p4 va).map Xlat.core = a va) (hv : op.Valid p4 m) :
     Inv (op.exec p4 m).2 p4 ∧
     ∀ va, (walk (op.exec p4 m).2 p4 va).map Xlat.core = op.absStep a (op.exec p4 m).1 va := by
   cases op with
@@ -211,7 +250,8 @@ theorem step_ok (p4 : Word) (m : PMem) (a : AbsMap) (op : MOp)
   | update parents li huge sz flags =>
     obtain ⟨sh, hpi, hli, hfl⟩ := hv
     exact step_update_aux p4 m a parents li huge sz flags hinv habs _
-      (update_flags_ok (⟨m, [], []⟩ : St) p4 parents li huge sz flags sh hinv hpi hli hfl)
+      (update_flags_ok (⟨m, [], []⟩ : St) p4 parents li huge sz flags sh hinv hpi hli hfl
+        (fun t ht h0 => hst.present parents t li sh.len_le.2 hpi ht hli h0))
       (update_flags_err (⟨m, [], []⟩ : St) p4 parents li huge flags)
   | setParent parents idx flags =>
     obtain ⟨hlen, hpi, hidx, hfl⟩ := hv
@@ -237,23 +277,26 @@ noncomputable def expected (p4 : Word) : PMem → AbsMap → List MOp → AbsMap
 table, after any valid history the invariant holds and the hardware walk of the raw memory maps
 every virtual address exactly as the history of successful calls dictates. -/
 theorem history_dictates (p4 : Word) (ops : List MOp) :
-    ∀ (m : PMem) (a : AbsMap), Inv m p4 → (∀ va, (walk m p4 va).map Xlat.core = a va) →
+    ∀ (m : PMem) (a : AbsMap), Inv m p4 → AllPresent m p4 → (∀ va, (walk m p4 va).map Xlat.core = a va) →
       HistoryValid p4 m ops →
-      Inv (runHistory p4 m ops) p4 ∧
+      Inv (runHistory p4 m ops) p4 ∧ AllPresent (runHistory p4 m ops) p4 ∧
       ∀ va, (walk (runHistory p4 m ops) p4 va).map Xlat.core = expected p4 m a ops va := by
   induction ops with
-  | nil => intro m a hinv habs _; exact ⟨hinv, habs⟩
+  | nil => intro m a hinv hst habs _; exact ⟨hinv, hst, habs⟩
   | cons op rest ih =>
-    intro m a hinv habs ⟨hv, hrest⟩
-    obtain ⟨hi', ha'⟩ := step_ok p4 m a op hinv habs hv
-    exact ih _ _ hi' ha' hrest
+    intro m a hinv hst habs ⟨hv, hrest⟩
+    obtain ⟨hi', ha'⟩ := step_ok p4 m a op hinv hst habs hv
+    exact ih _ _ hi' (step_strict p4 m op hinv hst hv) ha' hrest
 
 /-- …in particular from the empty table, where nothing is mapped. -/
 theorem history_from_empty (p4 : Word) (m : PMem) (hzero : ∀ i, m p4 i = 0#64) (ops : List MOp)
     (hv : HistoryValid p4 m ops) :
     Inv (runHistory p4 m ops) p4 ∧
     ∀ va, (walk (runHistory p4 m ops) p4 va).map Xlat.core = expected p4 m (fun _ => none) ops va := by
-  apply history_dictates p4 ops m (fun _ => none) (init_inv m p4 hzero) _ hv
+  suffices h : Inv (runHistory p4 m ops) p4 ∧ AllPresent (runHistory p4 m ops) p4 ∧
+      ∀ va, (walk (runHistory p4 m ops) p4 va).map Xlat.core = expected p4 m (fun _ => none) ops va from
+    ⟨h.1, h.2.2⟩
+  apply history_dictates p4 ops m (fun _ => none) (init_inv m p4 hzero) (AllPresent_init m p4 hzero) _ hv
   intro va
   have : walk m p4 va = none := by
     unfold walk; simp [hzero, bitP]
